@@ -398,3 +398,5 @@ LEVEL_TEXT = ("Machine-checked Lean 4 theorems about the executable model of par
 LEVEL_NOTE = ("'Junk never alters the curve data' is a theorem of the whole-file model (C19_file, hypothesis TildeNotFloat: float() rejects tokens "
               "starting with '~', as in C09) and is also checked by the oracle on the real code. (c) of C19_file is stated as the entry-wise "
               "relation JRel; when a later section is stored under the same key both reads keep the later one.")
+
+RULE = RULE + ("; ALSO (fifth session): stream `fresh-interpreter` (harness/fresh.py: [junk file, base] and [base] each in an interpreter of its own, junk lines that are the first of their delimiter shape); the same junk line repeated in one section; mnemonics with characters special to %-formatting / str.format / regular expressions; `steering-prefix` junk (VERSION. / NULLS. ...) in front of the genuine steering lines; clause `error-does-not-quote-the-line`")
